@@ -14,6 +14,14 @@ Oracle (independent of the code under test and of the Lean model): the generatin
 V dgamma/dV are known in closed form; finite differences in ln V (5-point stencils) of the first returned array against
 the second and of the second against the third; exact zeros at Gamma-acoustic; (q,m) permutation equivariance (bitwise);
 mpmath reference polynomial for the polynomial methods; recording axes object for the plot.
+
+Streams added with the translator tie of the whole module (`tools/gens/modegamma_src.py`; what the tie showed was untested):
+`grid-ascending` / `grid-shuffled` (direct calls with such `v_array`: every value must stay attached to ITS requested volume — pointwise
+equal to the call on the descending grid, and equal to the generating law where exactness is promised), `curved` (strongly curved
+ln w(ln V): the THIRD array against finite differences of the SECOND for every method — a wrong logarithm base scales it by ln 10),
+`lsq-zero-acoustic` (a Gamma-acoustic frequency given as exactly 0.0 with lsq_poly on the full `interpolate_modes`: every other mode
+finite and bit-identical to the run with positive junk there), `coincide-first-volume` (neighbouring modes equal at the first listed
+volume only: each must come out as if it were alone in the file).
 """
 from __future__ import annotations
 
@@ -758,6 +766,159 @@ def oracle_equivariance(case, perm_seed: int):
     return []
 
 
+
+# ----------------------------------------------------------------------------- streams that the translator tie showed were untested
+SPECIAL_STREAMS = ("grid-ascending", "grid-shuffled", "curved", "lsq-zero-acoustic", "coincide-first-volume")
+SPECIAL_METHODS = ("spline", "lagrange", "krogh", "pchip", "akima", "lsq_poly")          # hermite: known finding, main stream only
+
+
+def gen_special(ctx: Ctx) -> List[dict]:
+    rng = ctx.rng
+    out = []
+    reps = 2 if not ctx.thorough() else 5
+    for method in SPECIAL_METHODS:
+        for _ in range(reps):
+            # (a) evaluation grids that are not descending
+            for stream in ("grid-ascending", "grid-shuffled"):
+                nv = int(rng.choice([5, 6, 7, 9]))
+                order = int(rng.choice(admissible_orders(method, nv)))
+                c = gen_case(rng, method, order, nv, str(rng.choice(["power", "poly", "smooth"])), small=True)
+                v = numpy.asarray(c["v_array"], float)
+                perm = numpy.arange(len(v))[::-1] if stream == "grid-ascending" else rng.permutation(len(v))
+                if stream == "grid-shuffled" and (numpy.all(numpy.diff(perm) > 0) or numpy.all(numpy.diff(perm) < 0)):
+                    perm = numpy.roll(perm, 1)
+                c["v_array_base"] = [float(x) for x in v]
+                c["grid_perm"] = [int(i) for i in perm]
+                c["v_array"] = [float(x) for x in v[perm]]
+                c["stream"] = stream
+                out.append(c)
+            # (b) strongly curved ln w(ln V): third array vs finite differences of the second
+            nv = int(rng.choice([6, 7, 9, 12]))
+            orders = admissible_orders(method, nv)
+            order = int(orders[-1] if method in ("lagrange", "krogh") and len(orders) > 3 else rng.choice(orders))
+            if method == "lagrange":
+                order = min(order, 5)                      # the a-priori rounding bound of scipy.interpolate.lagrange explodes beyond
+            c = gen_case(rng, method, order, nv, "smooth", small=True)
+            lnvols = numpy.log(numpy.asarray(c["volumes"], float))
+            fr = numpy.asarray(c["freqs"], float)
+            for q_ in range(c["nq"]):
+                for m_ in range(c["np"]):
+                    law = c["laws"][q_][m_]
+                    law["b"] = law["b"][:2] + [float(rng.uniform(1.0, 3.0)) * float(rng.choice([-1.0, 1.0])), float(rng.uniform(-4.0, 4.0))]
+                    law["A"] = 0.0
+                    if not (q_ == 0 and m_ < 3):
+                        fr[:, q_, m_] = numpy.exp(law_eval(law, lnvols)[0])
+            c["freqs"] = fr.tolist()
+            c["stream"] = "curved"
+            out.append(c)
+            # (d) neighbouring modes that coincide at the first listed volume only
+            nv = int(rng.choice([5, 6, 7, 9]))
+            order = int(rng.choice(admissible_orders(method, nv)))
+            c = gen_case(rng, method, order, nv, "power", small=True)
+            c = force_coincidence(c, rng)
+            c["stream"] = "coincide-first-volume"
+            out.append(c)
+    # (c) a Gamma-acoustic frequency given as exactly 0.0, least squares on the whole data set
+    for order in ([1, 2, 3, 4, 5] if ctx.thorough() else [1, 2, 4]):
+        nv = int(rng.choice([o for o in (6, 7, 9, 12) if o > order]))
+        c = gen_case(rng, "lsq_poly", order, nv, str(rng.choice(["power", "poly"])), small=False)
+        fr = numpy.asarray(c["freqs"], float)
+        kind = str(rng.choice(["all-zero", "one-zero"]))
+        if kind == "all-zero":
+            fr[:, 0, :3] = 0.0
+        else:
+            fr[:, 0, :3] = rng.uniform(0.5, 40.0, size=(nv, 3))
+            fr[int(rng.integers(nv)), 0, int(rng.integers(3))] = 0.0
+        c["freqs"] = fr.tolist()
+        c["acoustic"] = "zero"; c["zero_kind"] = kind
+        c["stream"] = "lsq-zero-acoustic"
+        out.append(c)
+    return out
+
+
+def force_coincidence(case, rng):
+    """make mode (q, m+1) start from the frequency of mode (q, m) at the first listed volume, with another Grueneisen parameter"""
+    c = dict(case)
+    nq, np_ = c["nq"], c["np"]
+    cells = [(q, m) for q in range(nq) for m in range(np_ - 1) if not (q == 0 and m < 3)]
+    q, m = cells[int(rng.integers(len(cells)))]
+    laws = [[dict(l) for l in row] for row in c["laws"]]
+    a, b = laws[q][m], laws[q][m + 1]
+    b["b"] = [a["b"][0], a["b"][1] + float(rng.choice([-1.0, 1.0])) * float(rng.uniform(0.4, 1.2))] + list(b["b"][2:])
+    lnvols = numpy.log(numpy.asarray(c["volumes"], float))
+    fr = numpy.asarray(c["freqs"], float)
+    fr[:, q, m + 1] = numpy.exp(law_eval(b, lnvols)[0])
+    fr[0, q, m + 1] = fr[0, q, m]                    # bit-identical at the first volume (both laws pass through exp(b0) there)
+    c["freqs"] = fr.tolist(); c["laws"] = laws; c["pair"] = [q, m]
+    return c
+
+
+def oracle_special(case, real=None):
+    """the stream-specific part of the statement, on the real code.  -> list of (site, what, observed, expected)"""
+    stream, method = case.get("stream"), case["method"]
+    if real is None:
+        real = call_real(case)
+    if real[0] != "ok":
+        return []                                   # reported by oracle_case
+    ac = acoustic_mask(case["nq"], case["np"])
+    names = ("omega", "gamma", "vdr_dv")
+    if stream in ("grid-ascending", "grid-shuffled"):
+        base = call_real(case, v_array=case["v_array_base"])
+        if base[0] != "ok":
+            return [(f"interpolate_modes:{method}-raises", "raises on the descending grid but not on a re-ordered one", base[0], "ok")]
+        perm = numpy.asarray(case["grid_perm"], int)
+        for nm, A, B in zip(names, real[1:], base[1:]):
+            want = B[perm]
+            scale = max(1.0, float(numpy.nanmax(numpy.abs(want[:, ~ac]))) if want[:, ~ac].size else 1.0)
+            if nm == "omega":
+                scale = float(numpy.nanmax(numpy.abs(want[:, ~ac]))) if want[:, ~ac].size else 1.0
+            err = float(numpy.nanmax(numpy.abs(A - want)[:, ~ac])) if want[:, ~ac].size else 0.0
+            if not (err <= 1e-10 * scale) or numpy.any(numpy.isnan(A) != numpy.isnan(want)):
+                t = int(numpy.argmax(numpy.max(numpy.abs(A - want).reshape(len(perm), -1), axis=1)))
+                return [(f"interpolate_modes:{method}-grid-order",
+                         f"{nm} at requested volume #{t} (V={case['v_array'][t]:.6g}) of a {stream[5:]} grid is not the value the same call "
+                         f"returns for that volume on the descending grid: values are not attached to the requested volumes",
+                         err / scale, "<= 1e-10 of scale")]
+    elif stream == "lsq-zero-acoustic":
+        c2 = dict(case)
+        fr = numpy.asarray(case["freqs"], float).copy()
+        fr[:, 0, :3] = 7.0 + numpy.arange(3)[None, :] + 0.25 * numpy.arange(fr.shape[0])[:, None]
+        c2["freqs"] = fr.tolist()
+        other = call_real(c2)
+        for nm, A in zip(names, real[1:]):
+            if not numpy.all(numpy.isfinite(A[:, ~ac])):
+                return [("interpolate_modes:lsq_poly-zero-acoustic-poisons",
+                         f"{nm}: a Gamma-acoustic input frequency of exactly 0.0 makes {int((~numpy.isfinite(A[:, ~ac])).sum())} entries of "
+                         f"OTHER modes non-finite (lsq_poly order {case['order']})", int((~numpy.isfinite(A[:, ~ac])).sum()), 0)]
+        if other[0] == "ok":
+            for nm, A, B in zip(names, real[1:], other[1:]):
+                if not numpy.array_equal(A[:, ~ac], B[:, ~ac]):
+                    return [("interpolate_modes:modes-mixed",
+                             f"{nm}: the Gamma-acoustic input entries (exact zeros vs positive numbers) change the output of other modes",
+                             float(numpy.nanmax(numpy.abs(A - B)[:, ~ac])), 0.0)]
+    elif stream == "coincide-first-volume":
+        q, m = case["pair"]
+        fr = numpy.asarray(case["freqs"], float)
+        for mm in (m, m + 1):
+            solo = dict(case)
+            f1 = numpy.zeros((fr.shape[0], 1, 4)); f1[:, 0, 3] = fr[:, q, mm]; f1[:, 0, :3] = fr[:, 0, :3]
+            solo.update(nq=1, np=4, freqs=f1.tolist())
+            alone = call_real(solo)
+            if alone[0] != "ok":
+                continue
+            for nm, A, B in zip(names, real[1:], alone[1:]):
+                if not numpy.array_equal(A[:, q, mm], B[:, 0, 3], equal_nan=True):
+                    return [("interpolate_modes:modes-mixed",
+                             f"{nm} of mode (q={q}, m={mm}) — equal to its neighbour (m={m if mm != m else m + 1}) at the first listed volume "
+                             f"only — differs from what the same series gives when it is alone in the file",
+                             float(numpy.nanmax(numpy.abs(A[:, q, mm] - B[:, 0, 3]))), 0.0)]
+    elif stream == "curved":
+        r = consistency_check(case)
+        if r:
+            return [r]
+    return []
+
+
 # ----------------------------------------------------------------------------- plot
 class RecordingAxes:
     """stands in for matplotlib.axes.Axes: records plot/scatter calls, draws nothing"""
@@ -1094,7 +1255,8 @@ def small_ops(ctx: Ctx, res: Result):
 # ----------------------------------------------------------------------------- driver of the check
 def strip(case) -> dict:
     """replay payload of a case (everything needed to re-run it; floats survive JSON exactly)"""
-    keys = ("method", "order", "nq", "np", "volumes", "freqs", "v_array", "law", "laws", "ratio", "acoustic", "ascending", "malformed")
+    keys = ("method", "order", "nq", "np", "volumes", "freqs", "v_array", "law", "laws", "ratio", "acoustic", "ascending", "malformed",
+            "stream", "v_array_base", "grid_perm", "pair", "zero_kind")
     return {k: jsonable(case[k]) for k in keys if k in case}
 
 
@@ -1186,6 +1348,39 @@ def run(ctx: Ctx) -> Result:
                                 "mode": [q, k], "V": case["v_array"][:3], "omega": real[1][:3, q, k].tolist(),
                                 "gamma": real[2][:3, q, k].tolist(), "VdgammadV": real[3][:3, q, k].tolist(),
                                 "model_omega": model[1][:3, q, k].tolist() if model[0] == "ok" else model[0]})
+    # the streams added with the translator tie of the whole module
+    special = gen_special(ctx)
+    sdist: Dict[str, Any] = {k: {} for k in SPECIAL_STREAMS}
+    sdist["fd_third_vs_second_cases"] = {}
+    sdist["zero_acoustic_kinds"] = {}
+    smodels = ask_model(ctx, special) if ctx.time_left() > 45 else []
+    for case, model in zip(special, smodels):
+        if ctx.time_left() < 30:
+            res.notes.append("time budget reached inside the special streams"); break
+        real = call_real(case)
+        res.evaluations += 1
+        st, m = case["stream"], case["method"]
+        sdist[st][m] = sdist[st].get(m, 0) + 1
+        if st == "lsq-zero-acoustic":
+            sdist["zero_acoustic_kinds"][case["zero_kind"]] = sdist["zero_acoustic_kinds"].get(case["zero_kind"], 0) + 1
+        dist["outcome"][real[0]] = dist["outcome"].get(real[0], 0) + 1
+        note = compare(case, real, model)
+        if note:
+            res.disagreements.append(Disagreement("c11.interp", strip(case), real[0] if real[0] != "ok" else "arrays", model[0], note))
+        else:
+            res.traces_validated += 1
+            if real[0] == "ok":
+                res.distinct_nontrivial += 1
+        fs = oracle_case(case, real)
+        if not fs or st != "curved":
+            fs = fs + oracle_special(case, real)
+        if st == "curved" or (not fs and not case.get("malformed")):
+            sdist["fd_third_vs_second_cases"][m] = sdist["fd_third_vs_second_cases"].get(m, 0) + 1
+        for f in fs:
+            if f[0] not in t_sites:
+                t_sites.add(f[0]); add_fail(res, "special", case, f)
+    dist["special_streams"] = sdist
+
     # plot: correspondence + oracle on a few power-law and polynomial cases (gamma != V dgamma/dV there)
     pl = [c for c in cases if c["method"] in ("lsq_poly", "krogh", "spline") and c["law"] in ("power", "poly")]
     npl = 3 if not ctx.thorough() else 12
@@ -1234,6 +1429,20 @@ def search(ctx: Ctx, res: Result):
             if f[0] not in seen:
                 seen.add(f[0]); add_fail(tmp, chk, case, f, extra)
     if not tmp.oracle_failures:
+        # the special streams, with fresh draws (several repetitions)
+        for rep in range(6 if ctx.thorough() else 3):
+            if ctx.time_left() < 40 or tmp.oracle_failures:
+                break
+            sub = Ctx(pid=ctx.pid, tier=ctx.tier, seed=ctx.seed, rng=numpy.random.Generator(numpy.random.PCG64([ctx.seed, 9100 + rep])),
+                      driver=ctx.driver, corpus_dir=ctx.corpus_dir, proof_ok=ctx.proof_ok, deadline=ctx.deadline)
+            for case in gen_special(sub):
+                if ctx.time_left() < 40:
+                    break
+                real = call_real(case)
+                for f in oracle_case(case, real) + oracle_special(case, real):
+                    if f[0] not in seen:
+                        seen.add(f[0]); add_fail(tmp, "special", case, f)
+    if not tmp.oracle_failures:
         rng = numpy.random.Generator(numpy.random.PCG64([ctx.seed, 4242]))
         budget = 400 if ctx.thorough() else 150
         for i in range(budget):
@@ -1259,6 +1468,9 @@ def replay(ctx: Ctx, payload) -> List[OracleFailure]:
         fs = oracle_piecewise(case)
     elif check == "equivariance":
         fs = oracle_equivariance(case, int(payload.get("perm_seed", 7)))
+    elif check == "special":
+        fs = oracle_case(case)
+        fs = fs + oracle_special(case)
     elif check == "plot":
         fs = oracle_plot(case, int(payload["n"]), int(payload["iq"]))
     else:
